@@ -40,6 +40,7 @@ theorem Tbl.levelOf?_eq (t : Tbl) (u : Int) (h : t.Mem u) : t.levelOf? u = some 
 
 /-- what a computed-table entry `(g, u, v) ↦ w` must satisfy -/
 structure CacheEntryOK (t : Tbl) (g u v w : Int) : Prop where
+  gnt : g.natAbs ≠ 1
   mg : t.Mem g
   mu : t.Mem u
   mv : t.Mem v
@@ -65,7 +66,7 @@ theorem Inv.refMem {m : Mgr} (h : Inv m) {u : Int} (hu : m.tbl.Mem u) : m.ref.co
 
 theorem CacheEntryOK.ext {m t : Tbl} (hw : WF m) (he : Ext m t) {g u v w : Int}
     (h : CacheEntryOK m g u v w) : CacheEntryOK t g u v w := by
-  refine ⟨he.mem h.mg, he.mem h.mu, he.mem h.mv, he.mem h.mw, ?_, ?_⟩
+  refine ⟨h.gnt, he.mem h.mg, he.mem h.mu, he.mem h.mv, he.mem h.mw, ?_, ?_⟩
   · rw [he.levelOf h.mg, he.levelOf h.mu, he.levelOf h.mv, he.levelOf h.mw]; exact h.lvl
   · intro a
     rw [den_ext he hw w a h.mw, den_ext he hw g a h.mg, den_ext he hw u a h.mu, den_ext he hw v a h.mv]
